@@ -91,16 +91,20 @@ theorem cancel_grow (st : St) (id : Nat) : Grow st (cancel st id).1 := by
   · exact Grow.refl st
   · exact grow_of_sub rfl rfl rfl rfl rfl rfl rfl (Nat.le_refl _) (fun e he => ⟨e, (mem_erase he).1, rfl, rfl, rfl⟩)
 
+theorem doAct_grow (self : Nat) (st : St) (a : Act) : Grow st (doAct self st a).1 := by
+  cases a with
+  | lookup sid => exact lookup_grow st sid
+  | cancel id => exact cancel_grow st id
+  | cancelSelf => exact cancel_grow st self
+  | servers n => exact grow_of_sub rfl rfl rfl rfl rfl rfl rfl (Nat.le_refl _) (fun e he => ⟨e, he, rfl, rfl, rfl⟩)
+  | running id => exact Grow.refl st
+  | runningSelf => exact Grow.refl st
+
 theorem runScript_grow (self : Nat) : ∀ (acts : List Act) (st : St), Grow st (runScript self st acts).1 := by
   intro acts
   induction acts with
   | nil => intro st; exact Grow.refl st
-  | cons a as ih =>
-    intro st
-    cases a with
-    | lookup sid => simpa [runScript] using (lookup_grow st sid).trans (ih _)
-    | cancel id => simpa [runScript] using (cancel_grow st id).trans (ih _)
-    | cancelSelf => simpa [runScript] using (cancel_grow st self).trans (ih _)
+  | cons a as ih => intro st; simpa [runScript] using (doAct_grow self st a).trans (ih _)
 
 /-- after `finish st id …` every entry of key `id` is a lookup issued by the callback itself -/
 theorem finish_grow (st : St) (id : Nat) (r : Req) (res : Result) :
@@ -527,6 +531,11 @@ theorem step_ri {st : St} (op : Op) (h : RI st) :
     refine ⟨⟨timed_of_grow ht (onRecv_grow st d), hp⟩, ?_⟩
     intro e he
     have := onRecv_age d ht e he
+    exact ⟨fun h => absurd h this.1, fun _ => this.2⟩
+  | net d =>
+    refine ⟨⟨timed_of_grow ht (onRecv_grow st (d.take 4096)), hp⟩, ?_⟩
+    intro e he
+    have := onRecv_age (d.take 4096) ht e he
     exact ⟨fun h => absurd h this.1, fun _ => this.2⟩
   | tick =>
     have := tick_timed ht hk ha
